@@ -1,6 +1,8 @@
 """JSON documents for the object-layer checks: a python value tree with controlled number
 literals, its JSON text (what Go decodes) and its token encoding (what the Coq model reads)."""
 import json
+import sys
+sys.setrecursionlimit(20000)
 import struct
 
 
